@@ -133,6 +133,8 @@ def tok_json(tokens):
             k = "name"
         elif t.type == tokenlib.ENDMARKER:
             k = "end"
+        elif t.type == tokenlib.STRING:
+            k = "string"
         else:
             k = "other"
         out.append([k, t.string])
@@ -196,7 +198,7 @@ class Check(Property):
         for _ in range(300 if self.tier == "quick" else 5000):
             base = render(gen_tree(rng, rich, 3), "spaced", rng)
             i = rng.randrange(len(base) + 1)
-            s = base[:i] + rng.choice(["(", ")", "*", "**", "/", "+", ".", "__", "'", ",", "[", "=", ":"]) + base[i:]
+            s = base[:i] + rng.choice(["(", ")", "*", "**", "/", "+", ".", "__", "'", ",", "[", "=", ":", " @ ", " < ", " == ", " >> ", " 'x' ", "@", "<"]) + base[i:]
             self.bump("mutated")
             out.append(self.with_ops({"kind": "malformed", "s": s}))
         # word forms and unicode
@@ -407,4 +409,9 @@ class Check(Property):
         dangling = stripped.endswith(("*", "/", "+", "-", "**", "%", "//")) and not stripped.endswith("+/-")
         if (bad or dangling) and r[0] == "ok" and "'" not in s and '"' not in s:
             v.append(f"C07 {s!r}: unbalanced/dangling input yields the value {r[1]!r}")
+        # an operator outside the grammar (or a string literal) never yields a value: it is not silently skipped
+        import re
+        foreign = re.search(r"(@|<|>|==|!=|:=|&|\||~|;|=|'[^']*'|\"[^\"]*\")", s)
+        if foreign and r[0] == "ok":
+            v.append(f"C07 {s!r}: contains {foreign.group(1)!r}, which the expression grammar does not know, and yields the value {r[1]!r}")
         return v
